@@ -30,6 +30,7 @@ ASSUMPTIONS = ["standard (big-endian) number types; n-bit, skipping-Huffman, szi
                "sequential sessions; each file is closed before it is examined"]
 
 NTS = {"int8": (20, "i1"), "uint8": (21, "u1"), "int16": (22, ">i2"), "uint16": (23, ">u2"), "int32": (24, ">i4"),
+       "uint32": (25, ">u4"),
        "float32": (5, ">f4"), "float64": (6, ">f8")}
 SD_LAYOUTS = ["contig", "contig", "chunk", "chunk_deflate", "chunk_rle", "deflate", "rle", "ext", "unlim", "unlim"]
 GR_LAYOUTS = ["contig", "contig", "chunk", "deflate", "rle"]
@@ -53,6 +54,11 @@ def vals(nt, n, salt):
     else:
         info = np.iinfo(dt)
         a = rng.randint(max(info.min, -30000), min(info.max, 30000) + 1, size=n).astype(dt.newbyteorder("="))
+        # a quarter of the values from the ends of the type's range (sign bit set, all ones, ...)
+        ext = np.array([info.min, info.max, info.max // 2 + 1, info.max - 1], dtype=np.int64)
+        pick = rng.randint(0, 4, size=n)
+        use = rng.randint(0, 4, size=n) == 0
+        a[use] = ext[pick[use]].astype(a.dtype)
     if salt % 3 == 0 and n > 6:
         a[n // 3: 2 * n // 3] = a[n // 3]          # a run, so that RLE/deflate have something to do
     return a
@@ -107,9 +113,21 @@ def vd_st(draw, i, nsess):
     for _ in range(draw(st.integers(1, 4))):
         s = draw(st.integers(s, nsess - 1))
         writes.append([draw(st.integers(1, 12)), s])
+    # NO_INTERLACE storage (field after field) only supports writing all records with one call
+    il = draw(st.sampled_from([0, 0, 1])) if len(writes) == 1 else 0
     return dict(kind="vd", name="vd%d" % i, fields=fields, writes=writes, sess=writes[0][1],
                 blocksize=draw(st.sampled_from([0, 0, 16, 64, 500])), attr=draw(st.booleans()),
-                cls=draw(st.sampled_from(["", "klass"])))
+                cls=draw(st.sampled_from(["", "klass"])), il=il)
+
+
+def vd_rows(o, stored, nrec):
+    """record-major bytes of a vdata stored field after field (NO_INTERLACE)"""
+    sizes = [np.dtype(NTS[nt][1]).itemsize * order for _f, nt, order in o["fields"]]
+    if len(stored) != sum(sizes) * nrec:
+        return stored
+    offs = [sum(sizes[:k]) * nrec for k in range(len(sizes))]
+    return b"".join(stored[offs[k] + r_ * sizes[k]:offs[k] + (r_ + 1) * sizes[k]]
+                    for r_ in range(nrec) for k in range(len(sizes)))
 
 
 @st.composite
@@ -286,6 +304,8 @@ def build_sessions(case, d, model):
                         for fn, nt, order in o["fields"]:
                             p.call("i", "VSfdefine", vv, fn, NTS[nt][0], order)
                         p.call("i", "VSsetfields", vv, flds)
+                        if o.get("il"):
+                            p.call("i", "VSsetinterlace", vv, 1)
                         if o["blocksize"]:
                             p.call("i", "VSsetblocksize", vv, o["blocksize"])
                         if o["attr"]:
@@ -778,6 +798,10 @@ def check(case, d, labels):
                 ind = R.logical(I["data"])[:h["nvert"] * h["ivsize"]] if I["data"] is not None else b""
             except h4read.StructureError as e:
                 raise Fail("vdata %s: independent reader: %s" % (o["name"], e), program=prog)
+            if o.get("il"):
+                if h.get("interlace") != 1:
+                    raise Fail("vdata %s: stored header lost the NO_INTERLACE mode" % o["name"], program=prog)
+                ind = vd_rows(o, ind, m["nrec"])
             if ind != m["recs"]:
                 raise Fail("vdata %s: records recovered by the independent reader differ from what was written" % o["name"],
                            got=len(ind), want=len(m["recs"]), program=prog)
@@ -799,6 +823,8 @@ def check(case, d, labels):
             check_blocks("vdata %s" % o["name"], ln, exp)
             if exp:
                 got = b"".join(at(o_, l_) for o_, l_ in exp)
+                if o.get("il"):
+                    got = vd_rows(o, got, m["nrec"])
                 if got != m["recs"]:
                     raise Fail("vdata %s: bytes at the reported raw locations are not the records" % o["name"],
                                blocks=exp[:6], got=len(got), want=len(m["recs"]), program=prog)
